@@ -132,6 +132,18 @@ CLAIMED = {
    ref="DESIGN.md §8 C15, §7 M4",
    note="Lean kernel + standard axioms; the per-endpoint guarantees of the cached events are C03 composed with this (theorem lifecycle_wellformed_through_node)",
    technique="Lean 4 proof (inductive invariant over all interleavings of the thread model) + trace correspondence on real connections"),
+ "C12": dict(
+   text="Lean 4 theorems over a model of the UDP adapter (size check and status mapping of send_packet, the recv / recv_from "
+        "loops with their MAX_LOCAL_PAYLOAD_LEN buffer, regenerated), the UDP paths of the driver (event = (listener id, sender "
+        "address) or (id, peer address); Local ids send with send_to(endpoint.addr())) and Endpoint::from_listener, composed with "
+        "an abstract datagram kernel: for every reachable world and every socket, reported events ++ queued datagrams = the "
+        "datagrams the send history addressed to it, byte for byte, once each, in order, for every size 0..=max; every event is "
+        "attributed to an existing sender that sent exactly that payload; a reply through the reported or from_listener endpoint "
+        "is handed to the kernel for that address; refusal exactly above the declared maximum. Tie: scripted worlds on real "
+        "loopback sockets (several senders per listener, replies, connected-socket filtering) + a size sweep through four paths.",
+   ref="DESIGN.md §8 C12, §7 M8",
+   note="Lean kernel + standard axioms; the kernel's datagram service (no loss while paced, whole datagrams, source address, connected-socket filter) is the model's environment, exercised by the tie; IPv6/multicast/receive_broadcasts not modelled",
+   technique="Lean 4 proof (inductive invariant + refinement to the send history) + differential correspondence on real sockets"),
  "C13": dict(
    text="Lean 4 theorems: the status table of send (NotFound iff unregistered, NotAvailable iff registered and not ready "
         "with the adapter not invoked, else the adapter's status), send never touches the connection state, the Ws and Udp "
